@@ -72,8 +72,8 @@ CHECKS = {
         ],
         "units": [
             {"name": "netsim", "module": "harness", "pkg": "./checks/c19", "test": "TestC19", "tags": "verif",
-             "quick": {"checks": 40, "shards": 16, "timeout": 600},
-             "thorough": {"checks": 500, "shards": 16, "timeout": 3600, "shrink": "60s"}},
+             "quick": {"checks": 40, "shards": 16, "timeout": 600, "regress_n": 40},
+             "thorough": {"checks": 500, "shards": 16, "timeout": 3600, "shrink": "60s", "regress_n": 300}},
         ],
     },
     "C13": {
@@ -116,8 +116,8 @@ CHECKS = {
              "quick": {"checks": 25, "shards": 12, "timeout": 600},
              "thorough": {"checks": 400, "shards": 12, "timeout": 3600, "shrink": "60s"}},
             {"name": "netsim-checkpointed", "module": "harness", "pkg": "./checks/c03", "test": "TestC03Big", "tags": "verif",
-             "quick": {"checks": 8, "shards": 4, "timeout": 600},
-             "thorough": {"checks": 120, "shards": 4, "timeout": 3600, "shrink": "60s"}},
+             "quick": {"checks": 8, "shards": 4, "timeout": 600, "regress_n": 12},
+             "thorough": {"checks": 120, "shards": 4, "timeout": 3600, "shrink": "60s", "regress_n": 60}},
         ],
     },
     "C11": {
